@@ -117,6 +117,7 @@ type debouncer struct {
 	mu       sync.Mutex
 	timer    *time.Timer
 	duration time.Duration
+	gen      uint64 // incremented by every call and cancel; a timer only runs its function if it is still current
 }
 
 // NewDebounce creates a new debounced version of the invoked function which
@@ -139,7 +140,18 @@ func (d *debouncer) add(f func()) {
 		d.timer.Stop()
 	}
 
-	d.timer = time.AfterFunc(d.duration, f)
+	// Stop cannot hold back a timer that has fired already but whose function has not started yet:
+	// such a function must not run after a newer call (or a cancel) has arrived.
+	d.gen++
+	gen := d.gen
+	d.timer = time.AfterFunc(d.duration, func() {
+		d.mu.Lock()
+		current := gen == d.gen
+		d.mu.Unlock()
+		if current {
+			f()
+		}
+	})
 }
 
 // cancel the execution of a scheduled debounce function.
@@ -147,6 +159,7 @@ func (d *debouncer) cancel() {
 	d.mu.Lock()
 	defer d.mu.Unlock()
 
+	d.gen++
 	if d.timer != nil {
 		d.timer.Stop()
 		d.timer = nil
